@@ -31,6 +31,35 @@ class PropagationCheck:
         return driver.run_replay(self.pid, E, path, quiet)
 
 
+class EngineCheck:
+    """A check whose engine module exposes task / replay_check / TIERS (n, a, b, wall)."""
+
+    def __init__(self, pid: str, module: str, level: str, rule: str, assumptions, argnames, per_task_s=180, chunk=4, components=None):
+        self.pid, self.module, self.level, self.rule, self.assumptions = pid, module, level, rule, assumptions
+        self.argnames, self.per_task_s, self.chunk = argnames, per_task_s, chunk
+        self.components = components or COMPONENTS
+
+    def _engine(self):
+        import importlib
+
+        return importlib.import_module("sim.engines." + self.module)
+
+    def run(self, tier: str, seed: int, n_override: Optional[int]) -> int:
+        E = self._engine()
+        cfg = E.TIERS[tier]
+        n, wall = cfg[0], cfg[-1]
+        if n_override:
+            n = n_override
+        arg = dict(zip(self.argnames, cfg[1:-1]))
+        arg["tier"] = tier
+        return driver.run_check(self.pid, tier, seed, E, arg, n, wall, self.level, self.rule, self.assumptions,
+                                self.components, per_task_s=self.per_task_s, chunk=self.chunk,
+                                extra_cov=getattr(E, "extra_coverage", None))
+
+    def replay(self, path: str, quiet: bool) -> int:
+        return driver.run_replay(self.pid, self._engine(), path, quiet)
+
+
 PROP_RULE = ("one evaluation = one simulated execution of Mesh.write for (generated lattice assembly with chops, configuration = add order + "
              "corner renumbering per block, schedule = ranking of every neighbour/coincident set). distinct_nontrivial counts distinct "
              "(assembly digest, configuration, event-log digest) triples among executions in which the propagation step met a choice "
@@ -47,11 +76,19 @@ CHECKS: Dict[str, Any] = {
     "C04": PropagationCheck("C04", PROP_RULE, [
         "blockMesh grading law: each section is a geometric progression whose last/first ratio is the written expansion",
         "reference edge lengths: chord, three-point arc, polyline sum", "the blockMeshDict reader is correct"]),
+    "C05": EngineCheck("C05", "vertices_check", "exploration",
+        "one evaluation = one simulated assembly+write of (generated operations with exactly / nearly coincident and detached corners, patches, "
+        "merged pairs; configuration = order of mesh.add and merge_patches; schedule = simulated string-hash order of every per-corner "
+        "patch-name set). distinct_nontrivial counts distinct (model digest, configuration, event-log digest) among executions whose "
+        "reference partition has at least one vertex shared between corners.",
+        ["corner clusters in the workload are unambiguous: coincident within 2e-8, distinct >= 1e-5 (never within a decade of TOL=1e-7)",
+         "the reference key (position cluster, slave patches touching that corner of that operation) is the intended rule",
+         "the blockMeshDict reader is correct"], ["norders", "k"]),
 }
 
 
-ENGINES = ["propagation"]
-SELFTEST_SEEDS = {"propagation": 40}
+ENGINES = ["propagation", "vertices"]
+SELFTEST_SEEDS = {"propagation": 40, "vertices": 100}
 
 
 def engine_module(name: str):
